@@ -373,6 +373,13 @@ class World:
         self.reg_fp = self.registries_fp()
         chain_s = hashlib.sha256()
         chain_n = hashlib.sha256()
+        # a caller does not keep every frame alive for ever: a new frame is released after its last use, so that
+        # its memory (and its id()) can be taken by a later frame -- what an identity-keyed cache must survive
+        last_use = {}
+        for j, o in enumerate(self.sc["ops"]):
+            for key in ("frame", "twin", "eval_frame"):
+                if o.get(key):
+                    last_use[o[key]] = j
         for i, op in enumerate(self.sc["ops"]):
             self.step = i
             self.last_obs = None
@@ -394,6 +401,10 @@ class World:
             chain_n.update(f"{i}|{ev.get('nd', '')}".encode())
             self.trigram_src.append(f"{op['op']}:{ev['outcome']}")
             self.record_state()
+            for fid in [f for f, j in last_use.items() if j == i and f.startswith("N")]:
+                if self.frame_live.pop(fid, None) is not None:
+                    self.frame_fp.pop(fid, None)
+                    self.bump("frames.released")
         return {
             "violation": violation,
             "digest": chain_s.hexdigest()[:24],
